@@ -8,11 +8,19 @@ Slot schedules and single (spec/Schedule.tla):
      CheckMinerMatch of tdpos / xpoa / single for candidate blocks of every proposer at every instant,
      once with the model's timestamps and once shifted to a realistic epoch.
  (4) TLC validates the recorded results against the same specification (Trace_Schedule.tla).
+The validator set in force for the candidate block is a dimension of the box: besides the basic walks
+(candidate height 2 on the genesis block, the configured initial set) there are walks on chains that
+record validator sets / election results differing from the initial set and from the verifying node's
+own current set in size, membership and order, at every candidate height around the bootstrap
+threshold and above it (XPoA), in the tip's term and in later terms (TDPoS). The driver's stub ledger
+serves the records through the calls the plugins make (QueryBlockByHeight, CreateSnapshot(id).Get,
+GetTipXMSnapshotReader, consensus storage of stored blocks); candidates come from the empty proposer,
+every member of every set and an outsider. The two pipelines (schedule, proof of work) run concurrently.
 Proof of work (spec/SchedulePow.tla): the same four stages for every chain of block intervals up to
 2*gap+k blocks (miner's target, CheckMinerMatch of the mined block and of a list of candidate blocks on
 every tip, bitcoin-compact and legacy targets, sizes shifted by 26 bytes) and for a sweep of compact
 encodings through the real GetCompact / SetCompact."""
-import json, os, re
+import copy, json, os, re, threading, time
 import vp
 import tracecheck
 
@@ -83,7 +91,6 @@ def _stats(path):
 
 
 def check(run):
-    import time
     quick = run.tier == "quick"
     t0 = [time.time()]
     phases = run.cov.setdefault("phase_s", {})
@@ -104,37 +111,66 @@ def check(run):
                                        kf_consts=kfc or None, kf_desc=known)
         run.finish()
 
-    # ---- (1) the design: exhaustive model checking of the IDEAL specifications
-    run.tlc_mc("Schedule.tla", "MC_Schedule.cfg" if quick else "MC_Schedule_thorough.cfg", workers=workers, timeout=1500)
-    run.tlc_mc("SchedulePow.tla", _cfg_with(run, "MC_SchedulePow.cfg" if quick else "MC_SchedulePow_thorough.cfg",
-                                            {"Seed": run.seed}, "MC_SchedulePow_seed.cfg"),
-               name="mc_pow", workers=workers, timeout=1500)
-
-    phase("model_checking")
-    # ---- (2)-(4) slot schedules and single
-    sstats = os.path.join(run.work, "sched_stats.ndjson")
-    behs = _generate(run, "Gen_Schedule.tla", "Gen_Schedule.cfg" if quick else "Gen_Schedule_thorough.cfg", "gen_sched", workers)
-    kfc = {c: "TRUE" for k, (p, c) in KF.items() if p == "sched" and k in known}
-    tracecheck.replay_and_validate(run, behs, driver="sched", driver_args=["-stats", sstats],
-                                   trace_module="Trace_Schedule.tla", trace_cfg="Trace_Schedule.cfg", name="sched",
-                                   kf_consts=kfc or None, kf_desc=known, batch=400)
-    run.samples.append([e for e in behs[len(behs) // 2][:6]])
-
-    phase("schedule_conformance")
-    # ---- (2)-(4) proof of work
+    # The slot-schedule pipeline and the proof-of-work pipeline are independent (own specifications, own drivers); the
+    # first runs in a side thread on a shadow of the run object (own scratch directory and coverage record, the verdict
+    # lists are shared), the second in this thread. Verdicts and counters do not depend on the interleaving.
+    side = copy.copy(run)
+    side.cov = {}
+    side.work = run.sub("schedule")
+    sstats = os.path.join(side.work, "sched_stats.ndjson")
     pstats = os.path.join(run.work, "pow_stats.ndjson")
-    pbehs = _generate(run, "Gen_SchedulePow.tla",
-                      _cfg_with(run, "Gen_SchedulePow.cfg" if quick else "Gen_SchedulePow_thorough.cfg",
-                                {"Seed": run.seed}, "Gen_SchedulePow_seed.cfg"), "gen_pow", workers)
-    kfc = {c: "TRUE" for k, (p, c) in KF.items() if p == "pow" and k in known}
-    tracecheck.replay_and_validate(run, pbehs, driver="pow", driver_args=["-stats", pstats],
-                                   trace_module="Trace_SchedulePow.tla", trace_cfg="Trace_SchedulePow.cfg", name="pow",
-                                   kf_consts=kfc or None, kf_desc=known, batch=8000)
-    chains = [b for b in pbehs if b[0]["cfg"]["mode"] != "compact"]
-    if chains:
-        run.samples.append([{k: v for k, v in e.items() if k not in ("cands", "cb", "acc")} for e in chains[len(chains) // 2][:8]])
+    failure = []
 
-    phase("pow_conformance")
+    def schedule_pipeline():
+        t1 = time.time()
+        try:
+            # (1) the design: exhaustive model checking of the IDEAL specification
+            side.tlc_mc("Schedule.tla", "MC_Schedule.cfg" if quick else "MC_Schedule_thorough.cfg", workers=workers, timeout=1500)
+            phases["schedule_model_checking"] = round(time.time() - t1, 1)
+            # (2)-(4) slot schedules and single
+            behs = _generate(side, "Gen_Schedule.tla", "Gen_Schedule.cfg" if quick else "Gen_Schedule_thorough.cfg", "gen_sched", workers)
+            kfs = {c: "TRUE" for k, (p, c) in KF.items() if p == "sched" and k in known}
+            tracecheck.replay_and_validate(side, behs, driver="sched", driver_args=["-stats", sstats],
+                                           trace_module="Trace_Schedule.tla", trace_cfg="Trace_Schedule.cfg", name="sched",
+                                           kf_consts=kfs or None, kf_desc=known, batch=400)
+            side.samples.append([e for e in behs[len(behs) // 2][:6]])
+            side.samples.append([e for e in [b for b in behs if b[0]["cfg"]["rec"]][-1][:4]])
+        except BaseException as e:      # re-raised in the main thread (Undecided -> exit 2)
+            failure.append(e)
+        phases["schedule_pipeline"] = round(time.time() - t1, 1)
+
+    th = threading.Thread(target=schedule_pipeline, name="c16-schedule")
+    th.start()
+    try:
+        # (1) proof of work: the design
+        run.tlc_mc("SchedulePow.tla", _cfg_with(run, "MC_SchedulePow.cfg" if quick else "MC_SchedulePow_thorough.cfg",
+                                                {"Seed": run.seed}, "MC_SchedulePow_seed.cfg"),
+                   name="mc_pow", workers=workers, timeout=1500)
+        phase("pow_model_checking")
+        # (2)-(4) proof of work
+        pbehs = _generate(run, "Gen_SchedulePow.tla",
+                          _cfg_with(run, "Gen_SchedulePow.cfg" if quick else "Gen_SchedulePow_thorough.cfg",
+                                    {"Seed": run.seed}, "Gen_SchedulePow_seed.cfg"), "gen_pow", workers)
+        kfc = {c: "TRUE" for k, (p, c) in KF.items() if p == "pow" and k in known}
+        tracecheck.replay_and_validate(run, pbehs, driver="pow", driver_args=["-stats", pstats],
+                                       trace_module="Trace_SchedulePow.tla", trace_cfg="Trace_SchedulePow.cfg", name="pow",
+                                       kf_consts=kfc or None, kf_desc=known, batch=8000)
+        chains = [b for b in pbehs if b[0]["cfg"]["mode"] != "compact"]
+        if chains:
+            run.samples.append([{k: v for k, v in e.items() if k not in ("cands", "cb", "acc")} for e in chains[len(chains) // 2][:8]])
+        phase("pow_conformance")
+    finally:
+        th.join()
+    if failure:
+        raise failure[0]
+    # merge the side thread's coverage record
+    for k, v in side.cov.items():
+        if isinstance(v, list):
+            run.cov[k] = v + run.cov.get(k, [])
+        elif isinstance(v, (int, float)) and not isinstance(v, bool):
+            run.cov[k] = run.cov.get(k, 0) + v
+        else:
+            run.cov.setdefault(k, v)
     s, p = _stats(sstats), _stats(pstats)
     run.cov["real_operations"] = s.get("Instants", 0) + s.get("Checks", 0) + s.get("SingleCases", 0) + \
         p.get("Mined", 0) * 2 + p.get("CandChecks", 0) + p.get("CompactCases", 0)
@@ -155,31 +191,31 @@ def check(run):
         "stub ledger / block / network objects implement the plugin-facing interfaces (linear chain)",
     ]
     run.finish(require={
-        "schedule_configurations": (s.get("Configs", 0), 100 if quick else 1000),
-        "schedule_instants": (s.get("Instants", 0), 10000),
-        "slot_boundaries": (s.get("Boundaries", 0), 1000),
-        "candidates_accepted": (s.get("Accepted", 0), 1000),
-        "candidates_rejected": (s.get("Rejected", 0), 1000),
+        "schedule_configurations": (s.get("Configs", 0), 1000 if quick else 5000),
+        "schedule_instants": (s.get("Instants", 0), 50000),
+        "slot_boundaries": (s.get("Boundaries", 0), 5000),
+        "candidates_accepted": (s.get("Accepted", 0), 20000),
+        "candidates_rejected": (s.get("Rejected", 0), 100000),
         "single_cases": (s.get("SingleCases", 0), 72),
         # the validator-set dimension (measured on the real instances: the node's own set is read through GetConsensusStatus,
         # recorded sets count only when the real lookup fetched them from the stub's snapshots)
-        "validator_set_chain_walks": (s.get("ChainWalks", 0), 300),
-        "walks_served_a_recorded_set": (s.get("RecordedServedWalks", 0), 200),
-        "checks_set_in_force_differs_in_size_from_node_set": (s.get("SizeDiffChecks", 0), 5000),
-        "accepted_where_sizes_differ": (s.get("SizeDiffAccepted", 0), 500),
-        "rejected_where_sizes_differ": (s.get("SizeDiffRejected", 0), 2000),
-        "checks_set_in_force_smaller_than_node_set": (s.get("InForceSmaller", 0), 2000),
-        "checks_set_in_force_larger_than_node_set": (s.get("InForceLarger", 0), 2000),
-        "checks_same_size_other_members_or_order": (s.get("OrderDiffChecks", 0), 5000),
-        "accepted_same_size_other_members_or_order": (s.get("OrderDiffAccepted", 0), 500),
-        "checks_bootstrap_heights_on_recording_chain": (s.get("BootstrapChecks", 0), 5000),
-        "accepted_bootstrap_heights_on_recording_chain": (s.get("BootstrapAccepted", 0), 500),
-        "checks_recorded_set_in_force": (s.get("RecordedChecks", 0), 5000),
-        "accepted_recorded_set_in_force": (s.get("RecordedAccepted", 0), 500),
-        "accepted_producers_outside_initial_set": (s.get("AcceptedNonInitial", 0), 500),
-        "tdpos_chain_walks": (s.get("TdposChainWalks", 0), 100),
-        "tdpos_accepted_in_tip_term": (s.get("TdposTipTermAccepted", 0), 500),
-        "tdpos_accepted_in_new_term": (s.get("TdposNewTermAccepted", 0), 500),
+        "validator_set_chain_walks": (s.get("ChainWalks", 0), 500),
+        "walks_served_a_recorded_set": (s.get("RecordedServedWalks", 0), 400),
+        "checks_set_in_force_differs_in_size_from_node_set": (s.get("SizeDiffChecks", 0), 30000),
+        "accepted_where_sizes_differ": (s.get("SizeDiffAccepted", 0), 4000),
+        "rejected_where_sizes_differ": (s.get("SizeDiffRejected", 0), 25000),
+        "checks_set_in_force_smaller_than_node_set": (s.get("InForceSmaller", 0), 10000),
+        "checks_set_in_force_larger_than_node_set": (s.get("InForceLarger", 0), 10000),
+        "checks_same_size_other_members_or_order": (s.get("OrderDiffChecks", 0), 50000),
+        "accepted_same_size_other_members_or_order": (s.get("OrderDiffAccepted", 0), 5000),
+        "checks_bootstrap_heights_on_recording_chain": (s.get("BootstrapChecks", 0), 30000),
+        "accepted_bootstrap_heights_on_recording_chain": (s.get("BootstrapAccepted", 0), 4000),
+        "checks_recorded_set_in_force": (s.get("RecordedChecks", 0), 80000),
+        "accepted_recorded_set_in_force": (s.get("RecordedAccepted", 0), 10000),
+        "accepted_producers_outside_initial_set": (s.get("AcceptedNonInitial", 0), 4000),
+        "tdpos_chain_walks": (s.get("TdposChainWalks", 0), 300),
+        "tdpos_accepted_in_tip_term": (s.get("TdposTipTermAccepted", 0), 2000),
+        "tdpos_accepted_in_new_term": (s.get("TdposNewTermAccepted", 0), 4000),
         "single_accepted": (s.get("SingleAccepted", 0), 1),
         "pow_chains": (p.get("Chains", 0), 1000),
         "pow_retargets": (p.get("Retargets", 0), 1000),
